@@ -215,29 +215,22 @@ PPL::Grid::quick_equivalence_test(const Grid& y) const {
     if (x_num_lines != y.gen_sys.num_lines()) {
       return Grid::TVB_FALSE;
     }
-      //  - and if there are no lines, the same generators.
-    if (x_num_lines == 0) {
-      // Check for syntactic identity.
-
-      if (x.gen_sys == y.gen_sys) {
-        return Grid::TVB_TRUE;
-      }
-      else {
-        return Grid::TVB_FALSE;
-      }
+    // If there are no lines, check for syntactic identity.
+    // NOTE: the minimal form is not canonical (e.g., the point is not
+    // reduced with respect to the parameters), so that syntactically
+    // different systems may still generate the same grid.
+    if (x_num_lines == 0 && x.gen_sys == y.gen_sys) {
+      return Grid::TVB_TRUE;
     }
   }
 
   // TODO: Consider minimizing the systems and re-performing these
   //       checks.
 
-  if (css_normalized) {
-    if (x.con_sys == y.con_sys) {
-      return Grid::TVB_TRUE;
-    }
-    else {
-      return Grid::TVB_FALSE;
-    }
+  // NOTE: as above, syntactically different minimized congruence
+  // systems may still describe the same grid.
+  if (css_normalized && x.con_sys == y.con_sys) {
+    return Grid::TVB_TRUE;
   }
 
   return Grid::TVB_DONT_KNOW;
